@@ -105,8 +105,9 @@ struct Lin {
     std::unordered_set<uint64_t> dead;   // (done mask << 20) | live mask  known not to lead to a linearisation
     std::vector<int> order;
     std::string why;                      // explanation of the last failed constraint (best effort)
+    std::vector<uint32_t> must_precede;   // must_precede[i] = mask of ops that have to be linearised before op i
 
-    Lin(const std::vector<Op>& o, const std::vector<ObsInfo>& b) : ops(o), obs(b) {}
+    Lin(const std::vector<Op>& o, const std::vector<ObsInfo>& b) : ops(o), obs(b), must_precede(o.size(), 0) {}
 
     bool apply(const Op& op, uint32_t& live) {
         switch (op.type) {
@@ -157,6 +158,7 @@ struct Lin {
         for (size_t i = 0; i < ops.size(); i++) {
             if (done & (1u << i)) continue;
             if (ops[i].issue > min_ret) continue;
+            if (must_precede[i] & ~done) continue;
             uint32_t l2 = live;
             if (!apply(ops[i], l2)) continue;
             order.push_back((int)i);
@@ -171,6 +173,8 @@ struct Lin {
 // ---- state shared by the simulated threads -----------------------------------------------------------------------------
 struct World {
     std::unique_ptr<ConcurrentSubjectRouter> router;
+    std::unique_ptr<ConcurrentSubjectRouter> ctrl;   // a second, independent router: its observer performs operations on `router`
+    std::unique_ptr<USubscription> ctrl_sub;
     std::vector<std::unique_ptr<USubscription>> subs;
     int cb_yields = 0;
 };
@@ -188,8 +192,29 @@ struct Callback {  // copied into the observer; logs entry / exit
     }
 };
 
+thread_local const Json* tl_inner = nullptr;
+thread_local int tl_inner_id = 0;
+void do_op(const Json& op, int opid);
+void ctrl_callback() {  // runs inside a delivery of the OTHER router (holding only that router's read lock)
+    const Json* op = tl_inner;
+    int id = tl_inner_id;
+    tl_inner = nullptr;
+    if (op) do_op(*op, id);
+}
+
 void do_op(const Json& op, int opid) {
     const std::string& t = op.at("op").s;
+    if (op.get("via_ctrl", 0) && W->ctrl) {
+        // issue this operation from inside a callback of the control router
+        RoutingKey ck = RoutingKeyBuilder{}.level("c").build();
+        Json plain = op;
+        plain.set("via_ctrl", 0);
+        tl_inner = &plain;
+        tl_inner_id = opid;
+        W->ctrl->notify(ck);
+        tl_inner = nullptr;
+        return;
+    }
     sim::set_tag(opid);
     if (t == "notify") {
         RoutingKey k = build_key(pattern_of(op.at("pat")));
@@ -232,6 +257,10 @@ void body(const Json& prog) {
     w.router = std::make_unique<ConcurrentSubjectRouter>();
     w.subs.resize((size_t)prog.get("nobs", 0));
     w.cb_yields = (int)prog.get("cb_yields", 1);
+    if (prog.get("two_routers", 0)) {
+        w.ctrl = std::make_unique<ConcurrentSubjectRouter>();
+        w.ctrl_sub = std::make_unique<USubscription>(w.ctrl->subscribe(RoutingKeyBuilder{}.level("c").build(), [] { ctrl_callback(); }));
+    }
     int opid = 1;
     for (auto& op : prog.at("init").a) do_op(op, opid++);
     const Json& th = prog.at("threads");
@@ -254,6 +283,8 @@ void body(const Json& prog) {
     do_op(Json::object().set("op", "notify").set("pat", Json::array().push(Json::array()).push(Json::array()).push(Json::array())), 9003);
     w.subs.clear();
     w.router.reset();
+    w.ctrl_sub.reset();
+    w.ctrl.reset();
     W = nullptr;
 }
 
@@ -369,6 +400,16 @@ void analyse(const Json& prog) {
     // rule 1: linearizability
     if (ops.size() > 24 || obs.size() > 20) sim::violation("harness-limit", "history too long for the checker");
     Lin lin(ops, obs);
+    // "no subscribe, unsubscribe or shrink takes effect while a delivery is in progress": a notify that had already begun
+    // delivering when a mutator was CALLED cannot be affected by it, i.e. it is linearised before that mutator.
+    for (size_t m = 0; m < ops.size(); m++) {
+        if (ops[m].type != O_SUBSCRIBE && ops[m].type != O_UNSUBSCRIBE && ops[m].type != O_SHRINK) continue;
+        for (size_t n = 0; n < ops.size(); n++) {
+            if (ops[n].type != O_NOTIFY) continue;
+            for (auto& c : cbs)
+                if (c.nop == ops[n].id && c.begin < ops[m].issue) { lin.must_precede[m] |= 1u << n; g_extra["delivery_before_mutator_constraints"]++; break; }
+        }
+    }
     if (!lin.search(0, 0)) {
         std::string d = "no sequential order of the operations explains the observed deliveries; history:";
         for (auto& o : ops) d += " | " + op_str(o);
@@ -473,6 +514,8 @@ void generate(sim::Rng& g, const std::string& prop, const std::string& tier, Jso
         init.push(op);
     }
     int nt = g.range(2, thorough ? 4 : 3);
+    bool two_routers = g.below(4) == 0;
+    program.set("two_routers", (int)two_routers);
     Json threads = Json::array();
     int total = 0;
     for (int t = 0; t < nt; t++) {
@@ -498,6 +541,7 @@ void generate(sim::Rng& g, const std::string& prop, const std::string& tier, Jso
             else if (r < 94) op.set("op", "exists").set("pat", random_pattern(g));
             else op.set("op", "depth");
             op.set("pre", g.range(0, 2));
+            if (two_routers && g.below(4) == 0) op.set("via_ctrl", 1);
             ops.push(op);
             total++;
         }
@@ -520,6 +564,7 @@ std::string describe(const Json& p) {
         std::string s = op.at("op").s;
         if (op.has("obs")) s += std::to_string(op.at("obs").num());
         if (op.has("pat")) s += pat_str(pattern_of(op.at("pat")));
+        if (op.get("via_ctrl", 0)) s = "viaCtrl(" + s + ")";
         return s;
     };
     std::string s = "init:";
@@ -569,6 +614,9 @@ std::vector<Json> shrink(const Json& p) {
         if (!uses_obs(c, (int)op.at("obs").num())) out.push_back(c);
     }
     if (p.get("cb_yields", 0) > 0) { Json c = p; c.set("cb_yields", p.get("cb_yields", 0) - 1); out.push_back(c); }
+    for (size_t t = 0; t < th.size(); t++)
+        for (size_t i = 0; i < th[t].size(); i++)
+            if (th[t][i].get("via_ctrl", 0)) { Json c = p; c.at("threads")[t][i].set("via_ctrl", 0); out.push_back(c); }
     for (size_t t = 0; t < th.size(); t++)
         for (size_t i = 0; i < th[t].size(); i++)
             if (th[t][i].get("pre", 0)) { Json c = p; c.at("threads")[t][i].set("pre", 0); out.push_back(c); }
